@@ -3,6 +3,7 @@ from ..core import op_place, op_local, callee_def
 from ..flow import origins
 from ..props import prop
 from . import common
+from .c03 import kind_deep
 from .common import is_callee, exactly_once_on_normal_paths, flows_into, find_method, inherent_methods
 
 VP = "analysis::visit::VisitProgram"
@@ -165,6 +166,20 @@ def c08(ctx):
                     for d in inp.defs().get(pl["l"], []):
                         if d[0] == "stmt" and "ref" in d[3]["rv"] and d[3]["rv"]["mut"] and d[3]["rv"]["ref"]["l"] == buf_l:
                             muts.append((bi, t))
+            # form B: the kept length is that of strip_suffix('\n') of the line (or the whole length), and the buffer is truncated to it
+            truncs = [(bi, t) for bi, t in muts if is_callee(t, "std::string::String::truncate")]
+            if len(truncs) == 1 and len(muts) == 1:
+                tb, tt = truncs[0]
+                deep = kind_deep(inp, tt["args"][1])
+                strips = [d[1] for d, p in deep if d[0] == "call" and inp.term(d[1])["callee"].get("name") == "strip_suffix"]
+                others = sorted({inp.term(d[1])["callee"].get("name") for d, p in deep if d[0] == "call"} - {"strip_suffix", "map_or", "map_or_else", "map", "unwrap_or", "unwrap_or_else", "len", "deref", "as_str", "borrow", "new", "with_capacity", "read_line"})
+                okB = len(strips) == 1 and not others and (inp.term(strips[0])["args"][1].get("const") or {}).get("char") == "\n"
+                rep.ob("C08.R2", "input::strips-only-one-newline", okB,
+                       "" if okB else "the line buffer is truncated to a length that is not `the line without one trailing \\n` (%s)" % (others or "no strip_suffix('\\n')"), inp.loc(), how="truncate(len of strip_suffix('\\n') or the whole length)")
+                muts = []
+                pops_done = True
+            else:
+                pops_done = False
             bad = [(bi, t) for bi, t in muts if not is_callee(t, "std::string::String::pop")]
             pops = [(bi, t) for bi, t in muts if is_callee(t, "std::string::String::pop")]
             ok = not bad and len(pops) <= 1
@@ -194,7 +209,8 @@ def c08(ctx):
                                 g_ok = True
                 if not g_ok:
                     ok, why = False, "String::pop is not guarded by ends_with('\\n') (it may remove a character of the line)"
-            rep.ob("C08.R2", "input::strips-only-one-newline", ok, why, inp.loc(), how="pop under ends_with('\\n')")
+            if not pops_done:
+                rep.ob("C08.R2", "input::strips-only-one-newline", ok, why, inp.loc(), how="pop under ends_with('\\n')")
             # returned value is the buffer
             ret_ok = False
             for bi, si, s in inp.assigns():
